@@ -81,7 +81,8 @@ def _setup_faults(eng, fr):
 
 def register(w):
     w.always_standin["C03"] = [("pygopherd/handlers/mbox.py::MessageHandler.getmessage", "mailbox access is an assumed interface (mailbox module): message selectors in and out of range"),
-                               ("pygopherd/handlers/dir.py::DirHandler.prepare", "independence from earlier requests through the directory cache is a property of histories")]
+                               ("pygopherd/handlers/dir.py::DirHandler.prepare", "independence from earlier requests through the directory cache is a property of histories"),
+                               ("pygopherd/protocols/wap.py::WAPProtocol.handlerwrite", "self-consistency of HTTP/WAP replies (a Content-Length header equals the body that follows) relates handle() and handlerwrite()")]
     _register_iface(w)
     w.fields("AnyHandler", entry="opt[obj:GopherEntry]", body="ghost:bytes")
     w.fields("BaseGopherProtocol", handler="opt[obj:AnyHandler]")
